@@ -367,18 +367,36 @@ def oracle_rp(case, rec):
                       "network_directedness")
         check_rqa(rec, rn, "network" + ("_missing" if mv else ""), lmin,
                   seeds, miss if mv else None)
-        if mode == "threshold" and not mv:
-            # the setter keeps the network in step with the matrix
-            p2 = case.get("param2", param)
-            oks, _ = rec.call("network_set_fixed_threshold",
-                              rn.set_fixed_threshold, p2)
-            if oks:
-                c2 = expected_matrices(V, None, metric, "threshold", p2)
-                R2 = np.asarray(rn.recurrence_matrix())
-                rec.check(match_any(R2, c2), "network_setter_matrix",
-                          lambda: describe(R2, c2))
-                rec.equal(rn.adjacency, rref.without_diagonal(R2),
-                          "network_setter_adjacency")
+        if not mv:
+            # every setter keeps matrix and network in step with its own
+            # construction rule (the value is interpreted as by __init__)
+            p2 = case.get("param2", param) if mode == "threshold" else param
+            setter = {"threshold": "set_fixed_threshold",
+                      "threshold_std": "set_fixed_threshold_std",
+                      "recurrence_rate": "set_fixed_recurrence_rate",
+                      "local_recurrence_rate":
+                      "set_fixed_local_recurrence_rate",
+                      "adaptive_neighborhood_size":
+                      "set_adaptive_neighborhood_size"}[mode]
+            for who, obj in (("network", rn), ("plot", rp)):
+                oks, _ = rec.call("%s_%s" % (who, setter),
+                                  getattr(obj, setter), p2)
+                if not oks:
+                    continue
+                R2 = np.asarray(obj.recurrence_matrix())
+                if mode in ("threshold", "threshold_std"):
+                    std2 = pop_std(case["series"]) \
+                        if mode == "threshold_std" else None
+                    c2 = expected_matrices(V, None, metric, mode, p2, std2)
+                    rec.check(match_any(R2, c2), "%s_setter_matrix_%s" % (
+                        who, mode), lambda R2=R2, c2=c2: describe(R2, c2))
+                else:
+                    # same parameter as at construction: the matrix checked
+                    # against the definition above must come back
+                    rec.equal(R2, R, "%s_setter_matrix_%s" % (who, mode))
+                if who == "network":
+                    rec.equal(rn.adjacency, rref.without_diagonal(R2),
+                              "network_setter_adjacency")
 
 
 # ----------------------------------------------------------- cross oracle
